@@ -162,6 +162,13 @@ def histories(rng, tier):
                 out.append(("byhand-%s-%s-%s" % (fname[:-3], "other-call-left" if other else "no-call-left", form), "no-flow", v1, v2))
                 if form == "pointer":
                     out.append(("byhand-undone-%s-%s" % (fname[:-3], "other-call" if other else "only-call"), "no-flow", v2, v1))
+    # a METHOD named like the derive function it wraps is not a hand-written function of that name: the call stays a
+    # derive call whatever the old file declares (plain prefix, and -pluginprefix=equal=Equal with the usual Equal method)
+    for flags, fn in (([], "deriveEqual"), (["-pluginprefix=equal=Equal"], "Equal")):
+        for other in (True, False):
+            for edit in ("field-added", "comment"):
+                v1, v2 = pkg_method(fn, other, edit)
+                out.append(("method-%s-%s-%s" % (fn, "other-call" if other else "only-call", edit), "no-flow", v1, v2, flags))
     # histories run with -autoname / -dedup: the second version adds a call that clashes with one the old file
     # already serves; names, generated functions AND the rewritten user files must come out as from scratch
     for flags, second in ((["-autoname"], "deriveEqual"), (["-dedup"], "deriveEqualAgain"), (["-autoname", "-dedup"], "deriveEqual")):
@@ -186,6 +193,19 @@ def pkg_byhand(fname, other, form):
     v1 = {fname: head + use}
     v2 = {fname: "package hist\n\n" + imp + head[len("package hist\n\n"):] + use + hand}
     return v1, v2
+
+
+def pkg_method(fn, other, edit):
+    """`func (p *Point) fn(q *Point) bool { return fn(p, q) }`: the method bears the name of the derive call in its body."""
+    def src(fields, tail):
+        t = "package hist\n\ntype Point struct {\n%s}\n\n" % "".join("\t%s int\n" % f for f in fields)
+        t += "// %s reports whether the points are the same.\nfunc (p *Point) %s(q *Point) bool { return %s(p, q) }\n" % (fn, fn, fn)
+        if other:
+            t += "\nfunc hashOf(p *Point) uint64 { return deriveHash(p) }\n"
+        return {"point.go": t + tail}
+    if edit == "field-added":
+        return src(["X", "Y"], ""), src(["X", "Y", "Z"], "")
+    return src(["X", "Y"], ""), src(["X", "Y"], "\n// edited\n")
 
 
 def pkg_clash(second, t2, where):
@@ -256,7 +276,8 @@ def offsets(rng, n, tier):
 def run(rep):
     rep.cov["rule"] = ("edit histories v1->v2 over generated packages (fields retyped/added/dropped, derive calls added/removed/"
                        "reordered/all removed, a hand-written function taking over the name of a derive call (file sorting before / after "
-                       "derived.gen.go, with and without another call left) and the reverse, a derive result feeding another derive call with and without a change of the "
+                       "derived.gen.go, with and without another call left) and the reverse, a method named like the derive call it wraps (plain prefix and "
+                       "-pluginprefix=equal=Equal), a derive result feeding another derive call with and without a change of the "
                        "flowing type) x old derived.gen.go in {absent, output of v1, every sampled byte prefix of the v1 output and "
                        "of the v2 output}; distinct = distinct (history, old-file state) whose old file is non-empty")
     rep.cov["rule"] += ("; correspondence tie: G/Reload.regen run on generated flow scenarios (chains of 1-4 derive calls through "
